@@ -281,6 +281,18 @@ func finish(o checkOpts, seed int, start time.Time, loadTime time.Duration, repo
 				for _, v := range viols {
 					out := outs[k]
 					k++
+					// Go randomises map iteration natively while the engine explored one particular
+					// order: a violation that depends on it reproduces only in some native runs.
+					// Any reproducing run is a real failing execution of the real code, so retry.
+					for attempt := 0; attempt < 40 && !confirms(v, out); attempt++ {
+						again, rerr := nat.run([]nativeJob{{Harness: v.Harness, Tape: v.Tape, Thorough: thorough}})
+						if rerr != nil || len(again) != 1 {
+							break
+						}
+						if confirms(v, again[0]) {
+							out = again[0]
+						}
+					}
 					rf := replayFile{Property: o.prop, Harness: v.Harness, Tier: o.tier, Tree: tree, Assert: v.ID, Kind: v.Kind, At: v.Pos, Msg: v.Msg, Finding: v.Finding, Tape: v.Tape, Observed: &out}
 					if confirms(v, out) {
 						rf.Confirmed = true
@@ -511,9 +523,17 @@ func cmdReplay(args []string) int {
 		fmt.Fprintln(os.Stderr, "replay failed:", err)
 		return 2
 	}
+	v := sym.Violation{ID: rf.Assert, Kind: rf.Kind}
+	// native map iteration order is random: a violation that depends on it shows in some runs only
+	for attempt := 0; attempt < 40 && !confirms(v, outs[0]); attempt++ {
+		again, rerr := nat.run([]nativeJob{{Harness: rf.Harness, Tape: rf.Tape, Thorough: rf.Tier == "thorough"}})
+		if rerr != nil || len(again) != 1 {
+			break
+		}
+		outs = again
+	}
 	ob, _ := json.MarshalIndent(outs[0], "", " ")
 	fmt.Println(string(ob))
-	v := sym.Violation{ID: rf.Assert, Kind: rf.Kind}
 	if confirms(v, outs[0]) {
 		fmt.Printf("VIOLATION property=%s replay=%s\n", rf.Property, args[0])
 		return 1
